@@ -295,15 +295,20 @@ def faithful():
         shutil.rmtree(wt, ignore_errors=True)
 
 
-COVER = [("MCSolver", "MC_Levels_quick"), ("MCSolver", "MC_Shape_quick"), ("Config", "MC_Met"), ("Cache", "MC_Cache"), ("Runtime", "MC_Runtime_quick"),
-         ("Drivers", "MC_Drivers_quick"), ("NetcdfIO", "MC_Netcdf")]
+COVER = [("MCSolver", "MC_Levels_quick"), ("MCSolver", "MC_Shape_quick"), ("Config", "MC_Met"), ("Config", "MC_Defaults"), ("Cache", "MC_Cache"),
+         ("Cache", "MC_Cache_sim"), ("Runtime", "MC_Runtime_quick"), ("Drivers", "MC_Drivers_quick"), ("NetcdfIO", "MC_Netcdf"), ("NetcdfFiles", "MC_NetcdfFiles"),
+         ("KMTypes", "MC_KMTypes_z0"), ("KMGrid", "MC_KMGrid_quick"), ("KMZ0", "MC_KMZ0_quick"), ("Profiles", "MC_Profiles_quick"), ("Geo", "MC_Geo"), ("Column", "MC_Column")]
+SIMULATED = {"MC_Cache_sim": "num=40"}       # configurations explored by simulation
 
 
 def coverage():
     bad = 0
     taken = {}
     for module, cfg in COVER:
-        r = run_tlc(module, cfg, coverage=True, env={"EMIT_EVERY": "1000000", "EMIT_PHASE": "0", "JAVA_TOOL_OPTIONS": "-XX:+UseParallelGC -Xmx8g"}, timeout=1800)
+        if cfg in SIMULATED:
+            r = run_tlc(module, cfg, coverage=True, workers=1, simulate=SIMULATED[cfg], extra=["-depth", "120", "-seed", "1"], timeout=600)
+        else:
+            r = run_tlc(module, cfg, coverage=True, env={"EMIT_EVERY": "1000000", "EMIT_PHASE": "0", "JAVA_TOOL_OPTIONS": "-XX:+UseParallelGC -Xmx8g"}, timeout=1800)
         t = taken.setdefault(module, {})
         for a, (dist, tot) in r.coverage.items():
             t[a] = t.get(a, 0) + tot
